@@ -88,8 +88,13 @@ def mixed(own, tier, pid, need_watch=False, serial_only=False):
             continue
         if serial_only and prof.par:
             continue
+        import copy
+
         from bvt.gen import scenario
 
+        prof = copy.copy(prof)
+        prof.deep_wild = False  # (recursion beyond the library's guard is the borrowing check's own business, if at all)
+        prof.shadow = prof.fan = prof.hredisp = prof.fwdreplica = 0.0
         others.append(scenario(prof))
 
     def fix(sc):
